@@ -314,13 +314,12 @@ class ForwardScheduler(IScheduler):
                 if is_leaf:
                     left_hours = max(_task.estimate - _task.spent, 0)
                     start = max(_task.start, datetime.now())
-                    _task.end = max(
-                        self.__shift_by_resource_usage_and_calendar(
-                            resource, resource_usage, start, _task, left_hours
-                        ),
-                        datetime.now(),
-                        _task.start
+                    end = self.__shift_by_resource_usage_and_calendar(
+                        resource, resource_usage, start, _task, left_hours
                     )
+                    now = datetime.now()
+                    # the clock only bounds the end once it is later than the project start
+                    _task.end = max(end, now, _task.start) if now > self.__start else max(end, _task.start)
                 else:
                     _task.end = max([t.end for t in _task.children if t.end is not None])
 
